@@ -9,8 +9,9 @@ TECH = json.load(open(os.path.join(VERIF, "harness", "manifest_texts.json")))
 def main():
     checks = []
     na = []
-    for pid in sorted(TECH):
-        t = TECH[pid]
+    ids = [json.loads(l)["id"] for l in open(os.path.join(VERIF, "properties.jsonl")) if l.strip()]
+    for pid in ids:
+        t = TECH.get(pid, dict(not_applicable=True))
         if os.path.exists(os.path.join(VERIF, "coq", "Properties", pid + ".v")) and not t.get("not_applicable"):
             checks.append(dict(
                 property_id=pid,
